@@ -28,7 +28,11 @@ use std::{
 const LEASE_KEY: &str = "L";
 const EPOCH_KEY: &str = "L:epoch:token";
 const STREAM_KEY: &str = "L:block:stream";
-const SCRIPT_DIR: &str = "/repo/crates/fuel-core/redis_leader_lease_adapter_scripts";
+const SCRIPT_SUBDIR: &str = "crates/fuel-core/redis_leader_lease_adapter_scripts";
+/// the scripts are read from the tree the adapter was built from (VERIF_REPO, default /repo)
+fn script_dir() -> String {
+    format!("{}/{}", std::env::var("VERIF_REPO").unwrap_or_else(|_| "/repo".to_string()), SCRIPT_SUBDIR)
+}
 const SCRIPTS: [(&str, &str); 6] = [
     ("check_lease_owner", "check"),
     ("release_lock", "release"),
@@ -312,7 +316,7 @@ impl Rig {
     fn new(replicas: &[String], nodes: usize, budget: u32, mode: Mode, max_held: usize) -> Rig {
         let cl = Cluster::new(nodes, Box::new(Proj { owners: Mutex::new(HashMap::new()), max_held }));
         for (file, _) in SCRIPTS {
-            let text = std::fs::read(format!("{SCRIPT_DIR}/{file}.lua")).unwrap_or_else(|e| die(&format!("{file}.lua: {e}")));
+            let text = std::fs::read(format!("{}/{file}.lua", script_dir())).unwrap_or_else(|e| die(&format!("{file}.lua: {e}")));
             cl.register_script(file, &text);
         }
         cl.set_mode(mode);
@@ -719,6 +723,7 @@ fn random(args: &Args) -> Vec<String> {
     let nodes = args.num("nodes", 3) as usize;
     let max_h = args.num("maxh", 4) as usize;
     let max_inc = args.num("maxinc", 3) as u32;
+    let split = args.num("split", 0) == 1;
     let replicas: Vec<String> = args.get("replicas").unwrap_or("A,B").split(',').map(|s| s.to_string()).collect();
     let mut t = Trace::create(args.req("out"));
     let mut errs = Vec::new();
@@ -727,11 +732,19 @@ fn random(args: &Args) -> Vec<String> {
         t.reset(id as i64, json!({}));
         let mut rig = Rig::new(&replicas, nodes, budget, Mode::Auto, 2);
         // personality of this walk: how hostile the network is
-        let hostile = rng.below(4); // 0 = calm .. 3 = very lossy
+        let hostile = if split { rng.below(2) } else { rng.below(4) }; // 0 = calm .. 3 = very lossy
         // every third walk: standing asymmetric partitions (each replica cannot reach one node),
         // the setting in which orphaned sub-quorum writes, repair and blind successors meet
         let mut cut = vec![vec![false; nodes]; replicas.len()];
-        if budget == 0 && rng.below(3) == 0 {
+        if split {
+            // --split 1: every replica reaches only its own share of the nodes (replica i the
+            // nodes n with n mod #replicas = i): with an even node count two disjoint halves
+            for (ri, c) in cut.iter_mut().enumerate() {
+                for (n, x) in c.iter_mut().enumerate() {
+                    *x = n % replicas.len() != ri;
+                }
+            }
+        } else if budget == 0 && rng.below(3) == 0 {
             for c in cut.iter_mut() {
                 c[rng.below(nodes as u64) as usize] = true;
             }
